@@ -89,6 +89,81 @@ def at_length_rules(cx, CP, C, S):
                       'the search orders stored lengths against the query (element.partial_cmp(query))', where=cl.file)
 
 
+def from_points_rules(cx, CP, C, d):
+    """construction of a curve from points: the length table is the running sum of the edge lengths of the STORED vertices (shared with C02: the
+    length reported for a closest point is read from this table)"""
+    # ---------------------------------------------------------------- from_points
+    b = cx.fn(f'{CP}::from_points')
+    if b:
+        aggs = b.aggregates(CP)
+        cx.ob('CONSTRUCT', f'{C}::from_points:sites', len(aggs) == 1, f'{C}::from_points has exactly one {C} literal', found=str(len(aggs)))
+        for s in aggs:
+            lit = cx.aggval(s)
+            fl = dict(lit[2:])
+            line = fl.get('line')
+            e = match('(call Polyline::new $pts (agg *Option::None))', line)
+            cx.ob('EXPR', f'{C}::from_points:polyline', e is not None, 'the polyline is built from the de-duplicated points with implicit (i, i+1) edges', where=s, found=line)
+            # tolerance stored is the parameter
+            cx.expect('EXPR', f'{C}::from_points:tol', fl.get('tol'), '(param tol)', 'the stored tolerance is the construction tolerance', where=s)
+            # accumulator
+            inits, elems = cx.pushes_through(b, fl.get('lengths'))       # built in place, or by a helper that returns it
+            ok_init = inits == [('veclit', ('agg', 'array', ('0', ('const', 0.0))))]
+            cx.ob('CONSTRUCT', f'{C}::from_points:lengths:init', ok_init, 'lengths starts as the literal [0.0]', where=s, found='; '.join(show(i) for i in inits))
+            ok_el = len(elems) == 1 and elems[0][0] == 'Vec::push'
+            m = None
+            if ok_el:
+                from vpa import comp as CMP
+                el = CMP.canon(elems[0][2][0])        # index form: `for i in 0..n-1` with v[i], v[i+1] and `v.windows(2).enumerate()` alike
+                m = match('(add $prev (call $f (index $v (add 1 $i)) (index $v $i)))', el) or match('(call f64::add $prev (call $f (index $v (add 1 $i)) (index $v $i)))', el) or \
+                    match('(call f64::add (call $f (index $v (add 1 $i)) (index $v $i)) $prev)', el)
+                if m is None:
+                    # d + lengths.last().unwrap_or(&0.0) goes through f64::add on references
+                    m = match('(call f64::add (call $f (index $v (add 1 $i)) (index $v $i)) $prev)', el)
+            step_ok = False
+            if m is not None:
+                callee = m['f'][1]
+                step_ok = callee in NONNEG
+            cx.ob('CONSTRUCT', f'{C}::from_points:lengths:step', step_ok,
+                  'every further element is (previous element) + dist(v[i+1], v[i])  (non-negative increment over consecutive vertices)', where=s,
+                  found=elems[0][2][0] if elems else None)
+            if m:
+                prev_ok = match('(call Option::unwrap_or (call slice::last $L) _)', m['prev']) is not None or \
+                    (match('(index $L $i)', m['prev'], {'i': m['i']}) is not None)
+                cx.ob('CONSTRUCT', f'{C}::from_points:lengths:prev', prev_ok, 'the increment is added to the most recent element of lengths (last(), or lengths[i] with one push per i)',
+                      where=s, found=m['prev'])
+                cx.ob('EXPR', f'{C}::from_points:lengths:vertices', match('(call Polyline::vertices $line)', m['v'], {'line': line}) is not None,
+                      'the edge lengths are measured on the vertices of the stored polyline', where=s, found=m['v'])
+                cx.ob('EXPR', f'{C}::from_points:lengths:range', match('(itervar (range 0 (sub (len (call Polyline::vertices $line)) 1)))', m['i'], {'line': line}) is not None,
+                      'one element per edge: i ranges over 0..len(vertices)-1', where=s, found=m['i'])
+            if e:
+                pts = e['pts']
+                # de-duplication with the same tol; NotEnoughPoints under len < 2
+                dd = find('(mut Vec::dedup_by . (param points) (closure * (param tol)))', pts)
+                cx.ob('EXPR', f'{C}::from_points:dedup', dd is not None, 'consecutive duplicates are removed with the construction tolerance before anything else', where=s, found=pts)
+        for cl in cx.facts.closures_of(b.name):
+            r = cx.retval(cl)
+            if find('(field cap:tol _)', r):
+                cx.expect('EXPR', f'{C}::from_points:dedup-predicate', r, '(le (call *points::dist (param 2) (param 3)) (field cap:tol (param 1)))', 'points closer than tol (inclusive) are duplicates', where=cl.file)
+        errs = [s for s, dd in cx.rets(b) if dd[0] == 'agg' and dd[1].endswith('Result::Err')]
+        okerr = len(errs) >= 1 and all(cx.guarded(b, s.bb, '(lt (len _) 2)', True) is not None for s in errs)
+        cx.ob('GUARD', f'{C}::from_points:not-enough-points', okerr, 'Err(NotEnoughPoints) exactly under fewer than 2 de-duplicated points', where=errs[0] if errs else b.file)
+        for s in b.calls('Polyline::new'):
+            cx.ob('GUARD', f'{C}::from_points:polyline-after-check', cx.guarded(b, s.bb, '(lt (len _) 2)', False) is not None, 'the polyline is built only with at least 2 points', where=s)
+        if d == '2D':
+            curve2_closedness_rules(cx, b, aggs)
+
+
+def length_along_rule(cx, SP, C, S):
+    """shared with C04: between_lengths, the trims and the closed splits order their end stations by length_along (the seam of a closed curve is L, not 0)"""
+    # ---------------------------------------------------------------- length_along
+    b = cx.fn(f'{SP}::length_along')
+    if b:
+        r = cx.retval(b)
+        e = match('(add (index $L (self index)) (mul (self fraction) (sub (index $L (add 1 (self index))) (index $L (self index)))))', r)
+        okL = e is not None and (match('(field lengths (field curve (param self)))', e['L']) is not None or match(f'(call *{C}::lengths (field curve (param self)))', e['L']) is not None)
+        cx.ob('EXPR', f'{S}::length_along', okL, 'length_along = L[i] + (L[i+1] - L[i]) * fraction with i the stored index, on the owning curve', where=b.file, found=r)
+
+
 def run(cx):
     for D in DIMS:
         mod, C, S, It, d = D['mod'], D['C'], D['S'], D['It'], D['d']
@@ -110,65 +185,7 @@ def run(cx):
         if lb:
             cx.ob('ENC', f'{C}::lengths:shared', '&mut' not in lb.local_ty(0), f'{C}::lengths() hands out a shared reference only', found=lb.local_ty(0))
 
-        # ---------------------------------------------------------------- from_points
-        b = cx.fn(f'{CP}::from_points')
-        if b:
-            aggs = b.aggregates(CP)
-            cx.ob('CONSTRUCT', f'{C}::from_points:sites', len(aggs) == 1, f'{C}::from_points has exactly one {C} literal', found=str(len(aggs)))
-            for s in aggs:
-                lit = cx.aggval(s)
-                fl = dict(lit[2:])
-                line = fl.get('line')
-                e = match('(call Polyline::new $pts (agg *Option::None))', line)
-                cx.ob('EXPR', f'{C}::from_points:polyline', e is not None, 'the polyline is built from the de-duplicated points with implicit (i, i+1) edges', where=s, found=line)
-                # tolerance stored is the parameter
-                cx.expect('EXPR', f'{C}::from_points:tol', fl.get('tol'), '(param tol)', 'the stored tolerance is the construction tolerance', where=s)
-                # accumulator
-                inits, elems = cx.pushes_through(b, fl.get('lengths'))       # built in place, or by a helper that returns it
-                ok_init = inits == [('veclit', ('agg', 'array', ('0', ('const', 0.0))))]
-                cx.ob('CONSTRUCT', f'{C}::from_points:lengths:init', ok_init, 'lengths starts as the literal [0.0]', where=s, found='; '.join(show(i) for i in inits))
-                ok_el = len(elems) == 1 and elems[0][0] == 'Vec::push'
-                m = None
-                if ok_el:
-                    from vpa import comp as CMP
-                    el = CMP.canon(elems[0][2][0])        # index form: `for i in 0..n-1` with v[i], v[i+1] and `v.windows(2).enumerate()` alike
-                    m = match('(add $prev (call $f (index $v (add 1 $i)) (index $v $i)))', el) or match('(call f64::add $prev (call $f (index $v (add 1 $i)) (index $v $i)))', el) or \
-                        match('(call f64::add (call $f (index $v (add 1 $i)) (index $v $i)) $prev)', el)
-                    if m is None:
-                        # d + lengths.last().unwrap_or(&0.0) goes through f64::add on references
-                        m = match('(call f64::add (call $f (index $v (add 1 $i)) (index $v $i)) $prev)', el)
-                step_ok = False
-                if m is not None:
-                    callee = m['f'][1]
-                    step_ok = callee in NONNEG
-                cx.ob('CONSTRUCT', f'{C}::from_points:lengths:step', step_ok,
-                      'every further element is (previous element) + dist(v[i+1], v[i])  (non-negative increment over consecutive vertices)', where=s,
-                      found=elems[0][2][0] if elems else None)
-                if m:
-                    prev_ok = match('(call Option::unwrap_or (call slice::last $L) _)', m['prev']) is not None or \
-                        (match('(index $L $i)', m['prev'], {'i': m['i']}) is not None)
-                    cx.ob('CONSTRUCT', f'{C}::from_points:lengths:prev', prev_ok, 'the increment is added to the most recent element of lengths (last(), or lengths[i] with one push per i)',
-                          where=s, found=m['prev'])
-                    cx.ob('EXPR', f'{C}::from_points:lengths:vertices', match('(call Polyline::vertices $line)', m['v'], {'line': line}) is not None,
-                          'the edge lengths are measured on the vertices of the stored polyline', where=s, found=m['v'])
-                    cx.ob('EXPR', f'{C}::from_points:lengths:range', match('(itervar (range 0 (sub (len (call Polyline::vertices $line)) 1)))', m['i'], {'line': line}) is not None,
-                          'one element per edge: i ranges over 0..len(vertices)-1', where=s, found=m['i'])
-                if e:
-                    pts = e['pts']
-                    # de-duplication with the same tol; NotEnoughPoints under len < 2
-                    dd = find('(mut Vec::dedup_by . (param points) (closure * (param tol)))', pts)
-                    cx.ob('EXPR', f'{C}::from_points:dedup', dd is not None, 'consecutive duplicates are removed with the construction tolerance before anything else', where=s, found=pts)
-            for cl in cx.facts.closures_of(b.name):
-                r = cx.retval(cl)
-                if find('(field cap:tol _)', r):
-                    cx.expect('EXPR', f'{C}::from_points:dedup-predicate', r, '(le (call *points::dist (param 2) (param 3)) (field cap:tol (param 1)))', 'points closer than tol (inclusive) are duplicates', where=cl.file)
-            errs = [s for s, dd in cx.rets(b) if dd[0] == 'agg' and dd[1].endswith('Result::Err')]
-            okerr = len(errs) >= 1 and all(cx.guarded(b, s.bb, '(lt (len _) 2)', True) is not None for s in errs)
-            cx.ob('GUARD', f'{C}::from_points:not-enough-points', okerr, 'Err(NotEnoughPoints) exactly under fewer than 2 de-duplicated points', where=errs[0] if errs else b.file)
-            for s in b.calls('Polyline::new'):
-                cx.ob('GUARD', f'{C}::from_points:polyline-after-check', cx.guarded(b, s.bb, '(lt (len _) 2)', False) is not None, 'the polyline is built only with at least 2 points', where=s)
-            if d == '2D':
-                curve2_closedness_rules(cx, b, aggs)
+        from_points_rules(cx, CP, C, d)
 
         at_length_rules(cx, CP, C, S)
 
@@ -207,13 +224,7 @@ def run(cx):
             r = cx.retval(b)
             cx.ob('EXPR', f'{C}::length', match('(call Option::unwrap_or (call slice::last (self lengths)) _)', r) is not None or match('(unwrap (call slice::last (self lengths)))', r) is not None,
                   'length() is the last cumulative length', where=b.file, found=r)
-        # ---------------------------------------------------------------- length_along
-        b = cx.fn(f'{SP}::length_along')
-        if b:
-            r = cx.retval(b)
-            e = match('(add (index $L (self index)) (mul (self fraction) (sub (index $L (add 1 (self index))) (index $L (self index)))))', r)
-            okL = e is not None and (match('(field lengths (field curve (param self)))', e['L']) is not None or match(f'(call *{C}::lengths (field curve (param self)))', e['L']) is not None)
-            cx.ob('EXPR', f'{S}::length_along', okL, 'length_along = L[i] + (L[i+1] - L[i]) * fraction with i the stored index, on the owning curve', where=b.file, found=r)
+        length_along_rule(cx, SP, C, S)
         # ---------------------------------------------------------------- delegation
         for fn, pat, what in ((f'{CP}::at_fraction', f'(call *{C}::at_length (param self) (mul (call *{C}::length (param self)) (param fraction)))', 'at_fraction(f) = at_length(f * length())'),
                               (f'{CP}::at_front', f'(call *{C}::at_vertex (param self) 0)', 'at_front = at_vertex(0)'),
